@@ -484,7 +484,8 @@ func (x *Exec) checkFrame(st *State, key string, ref Term) {
 	}
 	cond := TFalse
 	if ref.S != "" {
-		cond = Ge(ref, fc.alloc0)
+		// reference 0 is nil: there is no memory behind it (a nil slice has no elements, a nil pointer faults)
+		cond = Or(Ge(ref, fc.alloc0), Eq(ref, TZero))
 	}
 	x.oblige(st, "frame", key, cond, fc.contract.frameTags(), token.NoPos)
 }
